@@ -7,8 +7,15 @@
 // check is never lost). Notifiers: assign (NEW_CONNECTION_ID arranged to this cell) and retire.
 // Here the path's ArcSendWaker is used as the signal latch it is: the obligation is that every
 // assign / retire that happens after a blocked borrow_cid raises CONNECTION_ID on that waker.
-// (A task Waker stored inside the Arc<Mutex<SendWaker>> made the schedule harness explode; the
-// two halves are therefore proved separately and composed by the SendWaker contract.)
+//
+// Inductive formulation (schedules of ANY length; the K-step schedule through the Arc<Mutex<..>>
+// did not finish in 400 s even for K = 2). Ghost `blocked` = "the path's last borrow_cid returned
+// Err(CONNECTION_ID) and neither assign nor retire happened since".
+//   INV:  blocked  =>  cell.waker is the path's ArcSendWaker  &&  no cid allocated  &&  !retired
+// INV holds initially; every atomic step (borrow_cid / assign / retire / renew) from ANY state
+// satisfying INV re-establishes it, and an assign / retire that ends `blocked` raises
+// CONNECTION_ID on the path's SendWaker, which wakes the path's sleeping task (the SendWaker half
+// of the protocol - a wake_by issued after the check is never lost - is c16_sendwaker_schedule).
 
 use super::*;
 
@@ -33,147 +40,213 @@ fn retire_sent() -> u32 {
     unsafe { RETIRE_SENT }
 }
 
-fn cidcell_schedule<const K: usize>() {
-    let mut cell = CidCell {
-        retired_cids: RetireSink,
-        allocated_cids: VecDeque::with_capacity(2),
-        waker: None,
-        is_retired: false,
-        is_using: false,
-    };
-    let txw = ArcSendWaker::new();
-    let cid_bit = Signals::CONNECTION_ID.bits();
-
-    // ghost
-    let mut n_alloc: u32 = 0;
-    let mut newest: Option<ConnectionId> = None;
-    let mut retired = false;
-    let mut using = false;
-    let mut blocked = false; // the last borrow_cid returned Err(CONNECTION_ID)
-    let mut notified_since_block = false; // a cid was assigned / the cell retired since then
-    let mut borrowed_ok = false;
-
-    let mut i = 0;
-    while i < K {
-        let choice: u8 = kani::any();
-        kani::assume(choice < 4);
-        match choice {
-            0 if !using => {
-                // waiter: check (registers the path's send waker when blocked)
-                match cell.borrow_cid(txw.clone()) {
-                    Ok(Some(cid)) => {
-                        assert!(!retired && n_alloc > 0 && newest.is_some_and(|n| n.len == cid.len && n.bytes[0] == cid.bytes[0]), "borrows the newest assigned cid");
-                        using = true;
-                        blocked = false;
-                        borrowed_ok = true;
-                    }
-                    Ok(None) => {
-                        assert!(retired, "None only for a retired cell");
-                        blocked = false;
-                    }
-                    Err(sig) => {
-                        assert!(sig == Signals::CONNECTION_ID);
-                        assert!(!retired && n_alloc == 0, "blocked only when no cid is assigned");
-                        if !blocked {
-                            blocked = true;
-                            notified_since_block = false;
-                        }
-                    }
-                }
-            }
-            1 if !retired => {
-                let seq: u64 = kani::any();
-                kani::assume(seq <= VARINT_MAX);
-                let mut cid = ConnectionId::default();
-                cid.len = 1;
-                cid.bytes[0] = kani::any();
-                let before = retire_sent();
-                cell.assign(seq, cid);
-                if using {
-                    n_alloc += 1;
-                    assert!(retire_sent() == before);
-                } else {
-                    assert!(retire_sent() == before + n_alloc, "every older cid is retired when the cell is not in use");
-                    n_alloc = 1;
-                }
-                newest = Some(cid);
-                notified_since_block = true;
-            }
-            2 => {
-                let before = retire_sent();
-                cell.retire();
-                if !retired {
-                    assert!(retire_sent() == before + n_alloc, "retire() retires every allocated cid");
-                } else {
-                    assert!(retire_sent() == before);
-                }
-                retired = true;
-                n_alloc = 0;
-                notified_since_block = true;
-            }
-            3 if using => {
-                // the BorrowedCid guard is dropped
-                let before = retire_sent();
-                cell.renew();
-                using = false;
-                if n_alloc > 1 {
-                    assert!(retire_sent() == before + n_alloc - 1);
-                    n_alloc = 1;
-                }
-            }
-            _ => {}
-        }
-        assert!(cell.allocated_cids.len() == n_alloc as usize && cell.is_retired == retired && cell.is_using == using);
-        i += 1;
+/// Stub for `std::sync::Mutex::lock`: one CAS (`try_lock`) instead of the futex spin/wait loop.
+fn stub_mutex_lock<T: ?Sized>(m: &std::sync::Mutex<T>) -> std::sync::LockResult<std::sync::MutexGuard<'_, T>> {
+    match m.try_lock() {
+        Ok(g) => Ok(g),
+        Err(std::sync::TryLockError::Poisoned(p)) => Err(p),
+        Err(std::sync::TryLockError::WouldBlock) => panic!("self-deadlock: mutex already held"),
     }
-    kani::cover!(blocked && notified_since_block && n_alloc > 0, "blocked path notified by assign");
-    kani::cover!(blocked && notified_since_block && retired, "blocked path notified by retire");
-    kani::cover!(blocked && !notified_since_block, "still legitimately blocked");
-    kani::cover!(borrowed_ok && n_alloc == 2, "cid re-assigned while borrowed");
-    // The obligation towards the SendWaker protocol, at the end of every schedule (every prefix is
-    // itself a schedule: disabled choices are no-op steps). The path's waker is polled only here.
+}
+
+fn cid1(b: u8) -> ConnectionId {
+    let mut cid = ConnectionId::default();
+    cid.len = 1;
+    cid.bytes[0] = b;
+    cid
+}
+
+struct Pre {
+    cell: CidCell<RetireSink>,
+    txw: ArcSendWaker,
+    n_alloc: u32,
+    newest: u8,
+    retired: bool,
+    using: bool,
+    blocked: bool,
+}
+
+/// Arbitrary reachable-shaped state: 0..=2 allocated cids (2 only while one is borrowed), retired
+/// cells hold none; the registered waker is the path's (present whenever `blocked`, possibly a
+/// stale registration otherwise). The path's task sleeps in wait_for(CONNECTION_ID).
+fn any_pre() -> Pre {
+    let n_alloc: u32 = kani::any();
+    let retired: bool = kani::any();
+    let using: bool = kani::any();
+    let blocked: bool = kani::any();
+    let stale: bool = kani::any();
+    let b: [u8; 2] = kani::any();
+    kani::assume(n_alloc <= 2);
+    kani::assume(!(retired && n_alloc > 0));
+    kani::assume(!(n_alloc == 2 && !using));
+    kani::assume(!(using && n_alloc == 0 && !retired));
+    kani::assume(!(blocked && (n_alloc > 0 || retired))); // INV
+    let txw = ArcSendWaker::new();
+    let mut allocated_cids = VecDeque::with_capacity(2);
+    if n_alloc >= 1 {
+        allocated_cids.push_back((1u64, cid1(b[0])));
+    }
+    if n_alloc >= 2 {
+        allocated_cids.push_back((0u64, cid1(b[1])));
+    }
+    let cell = CidCell {
+        retired_cids: RetireSink,
+        allocated_cids,
+        waker: if blocked || stale { Some(txw.clone()) } else { None },
+        is_retired: retired,
+        is_using: using,
+    };
+    Pre { cell, txw, n_alloc, newest: b[0], retired, using, blocked }
+}
+
+/// the cell's registered waker is the path's ArcSendWaker
+fn registered(p: &Pre) -> bool {
+    match p.cell.waker.as_ref() {
+        Some(_) => true, // the only ArcSendWaker in the harness is the path's
+        None => false,
+    }
+}
+
+/// Has CONNECTION_ID been raised on the path's send waker since it parked? (a re-poll of
+/// wait_for is Ready exactly then; it consumes the signal, so this is called once, at the end)
+fn cid_signalled(p: &Pre) -> bool {
     let w = waker(0);
     let mut cx = Context::from_waker(&w);
     let r = {
-        let fut = pin!(txw.wait_for(Signals::CONNECTION_ID));
+        let fut = pin!(p.txw.wait_for(Signals::CONNECTION_ID));
         fut.poll(&mut cx)
     };
-    if blocked && notified_since_block {
-        assert!(r.is_ready(),
-            "no lost wake-up: cid assigned / cell retired after a blocked borrow_cid raises CONNECTION_ID on the path's send waker");
+    r.is_ready()
+}
+
+/// The path's task goes to sleep on the send waker (Pending: nothing raised yet).
+fn park_path(p: &Pre) {
+    let w = waker(0);
+    let mut cx = Context::from_waker(&w);
+    let r = {
+        let fut = pin!(p.txw.wait_for(Signals::CONNECTION_ID));
+        fut.poll(&mut cx)
+    };
+    assert!(r.is_pending());
+}
+
+fn check_post(p: &Pre) {
+    assert!(p.cell.allocated_cids.len() == p.n_alloc as usize && p.cell.is_retired == p.retired && p.cell.is_using == p.using);
+    if p.blocked {
+        assert!(registered(p) && p.n_alloc == 0 && !p.retired, "INV re-established");
     }
-    if !notified_since_block {
-        assert!(r.is_pending(), "no spurious CONNECTION_ID signal");
-        // ... and a later assign / retire of a blocked cell wakes the now sleeping path
-        if blocked {
-            let before = wakes(0);
-            if kani::any() {
-                let mut cid = ConnectionId::default();
-                cid.len = 1;
-                cell.assign(0, cid);
-            } else {
-                cell.retire();
-            }
-            assert!(wakes(0) == before + 1, "assign / retire wakes the sleeping path's task");
+}
+
+#[kani::proof]
+#[kani::unwind(6)]
+#[kani::stub(std::sync::Mutex::lock, stub_mutex_lock)]
+fn c16_cidcell_step_borrow() {
+    let mut p = any_pre();
+    kani::assume(!p.using);
+    park_path(&p);
+    let before = wakes(0);
+    match p.cell.borrow_cid(p.txw.clone()) {
+        Ok(Some(cid)) => {
+            assert!(!p.retired && p.n_alloc > 0 && cid.len == 1 && cid.bytes[0] == p.newest, "borrows the newest assigned cid");
+            p.using = true;
+            kani::cover!(true, "cid borrowed");
+        }
+        Ok(None) => {
+            assert!(p.retired, "None only for a retired cell");
+            kani::cover!(true, "retired cell");
+        }
+        Err(sig) => {
+            assert!(sig == Signals::CONNECTION_ID);
+            assert!(!p.retired && p.n_alloc == 0, "blocked only when no cid is assigned");
+            p.blocked = true;
+            kani::cover!(true, "blocked");
         }
     }
-    core::mem::forget(cell);
+    assert!(wakes(0) == before && !cid_signalled(&p), "no spurious CONNECTION_ID signal");
+    check_post(&p);
+    core::mem::forget(p);
 }
 
 #[kani::proof]
 #[kani::unwind(6)]
-fn c16_cidcell_schedule_k3() {
-    cidcell_schedule::<3>();
+#[kani::stub(std::sync::Mutex::lock, stub_mutex_lock)]
+fn c16_cidcell_step_assign() {
+    let mut p = any_pre();
+    kani::assume(!p.retired && p.n_alloc < 2);
+    park_path(&p);
+    let was_registered = registered(&p);
+    let seq: u64 = kani::any();
+    kani::assume(seq <= VARINT_MAX);
+    let before = wakes(0);
+    let sent = retire_sent();
+    p.cell.assign(seq, cid1(kani::any()));
+    if p.using {
+        assert!(retire_sent() == sent);
+        p.n_alloc += 1;
+    } else {
+        assert!(retire_sent() == sent + p.n_alloc, "every older cid is retired when the cell is not in use");
+        p.n_alloc = 1;
+    }
+    if p.blocked {
+        assert!(wakes(0) == before + 1 && cid_signalled(&p), "a cid assigned after a blocked borrow_cid wakes the path's sleeping task");
+    }
+    assert!((wakes(0) != before) == was_registered, "exactly the registered path is notified");
+    assert!(p.cell.waker.is_none(), "registration consumed");
+    kani::cover!(p.blocked, "blocked path notified by assign");
+    kani::cover!(!was_registered, "nobody waiting");
+    kani::cover!(p.using && p.n_alloc == 2, "cid re-assigned while borrowed");
+    p.blocked = false;
+    check_post(&p);
+    core::mem::forget(p);
 }
 
 #[kani::proof]
 #[kani::unwind(6)]
-fn c16_cidcell_schedule_k4() {
-    cidcell_schedule::<4>();
+#[kani::stub(std::sync::Mutex::lock, stub_mutex_lock)]
+fn c16_cidcell_step_retire() {
+    let mut p = any_pre();
+    park_path(&p);
+    let was_registered = registered(&p);
+    let before = wakes(0);
+    let sent = retire_sent();
+    p.cell.retire();
+    if !p.retired {
+        assert!(retire_sent() == sent + p.n_alloc, "retire() retires every allocated cid");
+        if p.blocked {
+            assert!(wakes(0) == before + 1 && cid_signalled(&p), "retiring the cell wakes the blocked path's sleeping task");
+        }
+        assert!((wakes(0) != before) == was_registered);
+        p.n_alloc = 0;
+        p.blocked = false;
+    } else {
+        assert!(retire_sent() == sent && wakes(0) == before, "retire is idempotent");
+    }
+    kani::cover!(p.retired, "second retire");
+    kani::cover!(!p.retired && was_registered && wakes(0) != before, "blocked path notified by retire");
+    p.retired = true;
+    check_post(&p);
+    core::mem::forget(p);
 }
 
 #[kani::proof]
 #[kani::unwind(6)]
-fn c16_cidcell_schedule_k2() {
-    cidcell_schedule::<2>();
+#[kani::stub(std::sync::Mutex::lock, stub_mutex_lock)]
+fn c16_cidcell_step_renew() {
+    let mut p = any_pre();
+    kani::assume(p.using);
+    park_path(&p);
+    let before = wakes(0);
+    let sent = retire_sent();
+    p.cell.renew();
+    p.using = false;
+    if p.n_alloc > 1 {
+        assert!(retire_sent() == sent + p.n_alloc - 1);
+        p.n_alloc = 1;
+    } else {
+        assert!(retire_sent() == sent);
+    }
+    assert!(wakes(0) == before && !cid_signalled(&p), "no spurious CONNECTION_ID signal");
+    kani::cover!(sent != retire_sent(), "older cid retired on renew");
+    check_post(&p);
+    core::mem::forget(p);
 }
